@@ -48,6 +48,8 @@ CATALOGUE = {
         "U.sig-other-credid", "U.sig-other-pubkey", "U.sig-other-key", "U.sig-other-credid-rawid-follows"],
     "tpm": [
         "T.certinfo-missing", "T.pubarea-missing", "T.alg-missing", "T.x5c-missing", "T.sig-missing", "T.ver-1.2",
+        # `ver` of another CBOR type whose rendering reads "2.0" (or is the version number): the rule is the text "2.0"
+        "T.ver-float-2.0", "T.ver-decimal-2.0", "T.ver-int-2", "T.ver-bytes-2.0", "T.ver-list-of-text",
         "T.unique-ne-modulus", "T.exponent-ne", "T.type-rsa-key-ec", "T.type-ecc-key-rsa", "T.unique-ne-xy",
         "T.curve-ne", "T.magic", "T.type-quote", "T.extradata-other-authdata", "T.extradata-other-cdj",
         "T.extradata-other-hash", "T.name-digest-wrong", "T.name-digest-other-alg", "T.name-prefix-ne-namealg",
@@ -681,7 +683,13 @@ def _tpm(b: _Build) -> dict:
         # what is presented - and genuinely signed - as certInfo is a TPM2B_ATTEST (2-byte size, then the structure): the signed
         # octets then do not begin with TPM_GENERATED_VALUE
         cert_info = signed = len(cert_info).to_bytes(2, "big") + cert_info
-    stmt = {"ver": "1.2" if b.has("T.ver-1.2") else "2.0", "alg": alg, "x5c": _x5c(b),
+    import decimal as _dec
+    ver = "2.0"
+    for f, v in (("T.ver-1.2", "1.2"), ("T.ver-float-2.0", 2.0), ("T.ver-decimal-2.0", _dec.Decimal("2.0")), ("T.ver-int-2", 2),
+                 ("T.ver-bytes-2.0", b"2.0"), ("T.ver-list-of-text", ["2.0"])):
+        if b.has(f):
+            ver = v
+    stmt = {"ver": ver, "alg": alg, "x5c": _x5c(b),
             "sig": core.sign(signer, alg, signed), "certInfo": cert_info, "pubArea": pub_area}
     return _without(stmt, b, {"T.certinfo-missing": "certInfo", "T.pubarea-missing": "pubArea", "T.alg-missing": "alg",
                               "T.x5c-missing": "x5c", "T.sig-missing": "sig"})
